@@ -20,16 +20,19 @@ fn main() {
     // one step from arbitrary (larger) states: three hyperedges, arity three, more nodes
     let one: Vec<(Spec, Bounds)> = vec![
         // 3 hyperedges over <=2 nodes, unary
-        (Spec { n_min: 2, n_max: 2, e_min: 3, e_max: 3, ks: 1, kt: 1, lw: 1, lx: 2, a: 1, b: 0, q: 0 }, Bounds { nodes: 9, edges: 9, pairs: 9, iface: 9, arity_s: 1, arity_t: 1, labels: 2, del_ids: 2, hyper_only: false, alphabet: Alphabet::Full }),
+        (Spec { n_min: 2, n_max: 2, e_min: 3, e_max: 3, ks: 1, kt: 1, lw: 1, lx: 2, a: 1, b: 0, q: 0 }, Bounds { nodes: 9, edges: 9, pairs: 9, iface: 9, arity_s: 1, arity_t: 1, labels: 2, del_ids: 3, hyper_only: false, alphabet: Alphabet::Full }),
         // one hyperedge with source lists up to length 3 (non-ascending, repeated) over <=3 nodes
-        (Spec { n_min: 2, n_max: 3, e_min: 1, e_max: 1, ks: 3, kt: 1, lw: 1, lx: 1, a: 1, b: 1, q: 1 }, Bounds { nodes: 9, edges: 9, pairs: 9, iface: 9, arity_s: 0, arity_t: 0, labels: 1, del_ids: 2, hyper_only: false, alphabet: Alphabet::Full }),
+        (Spec { n_min: 2, n_max: 3, e_min: 1, e_max: 1, ks: 3, kt: 1, lw: 1, lx: 1, a: 1, b: 1, q: 1 }, Bounds { nodes: 9, edges: 9, pairs: 9, iface: 9, arity_s: 0, arity_t: 0, labels: 1, del_ids: 3, hyper_only: false, alphabet: Alphabet::Full }),
         // four nodes, one binary hyperedge, a pending pair
-        (Spec { n_min: 4, n_max: 4, e_min: 1, e_max: 1, ks: 2, kt: 1, lw: 1, lx: 1, a: 1, b: 1, q: 1 }, Bounds { nodes: 9, edges: 9, pairs: 9, iface: 9, arity_s: 0, arity_t: 0, labels: 1, del_ids: 2, hyper_only: true, alphabet: Alphabet::Full }),
+        (Spec { n_min: 4, n_max: 4, e_min: 1, e_max: 1, ks: 2, kt: 1, lw: 1, lx: 1, a: 1, b: 1, q: 1 }, Bounds { nodes: 9, edges: 9, pairs: 9, iface: 9, arity_s: 0, arity_t: 0, labels: 1, del_ids: 3, hyper_only: true, alphabet: Alphabet::Full }),
+        // three nodes with up to two pending pairs (both orientations, chains through a node) and no hyperedge:
+        // deletions by every identifier list of length <= 3 (sorted with repeats, gaps, out of range)
+        (Spec { n_min: 3, n_max: 3, e_min: 0, e_max: 0, ks: 0, kt: 0, lw: 1, lx: 1, a: 1, b: 1, q: 2 }, Bounds { nodes: 9, edges: 9, pairs: 9, iface: 9, arity_s: 0, arity_t: 0, labels: 1, del_ids: 3, hyper_only: false, alphabet: Alphabet::Full }),
     ];
     for (k, (spec, bd)) in one.iter().enumerate() {
         let u = spec.universe();
         let cap = if quick { 60_000 } else { 2_000_000 };
-        ctx.run_slice(Slice::new(format!("one-step-from-arbitrary-states-{}[{} first {} of {}]", k, spec.name(), cap.min(u.count()), u.count()), u.count().min(cap), move |i, loc| check_one_step(bd, &u.get(i), loc)));
+        ctx.run_slice(Slice::new(format!("one-step-from-arbitrary-states-{}[{}]", k, spec.name()), { assert!(u.count() <= cap); u.count() }, move |i, loc| check_one_step(bd, &u.get(i), loc)));
     }
     // live object histories
     let bl = Bounds { nodes: 2, edges: 1, pairs: 1, iface: 1, arity_s: 1, arity_t: 1, labels: 2, del_ids: 1, hyper_only: false, alphabet: Alphabet::Full };
